@@ -21,7 +21,7 @@ pub fn spec(prop: &str, quick: bool) -> Option<CheckSpec> {
             exhaustive_note: Some("every counter of the complete lifetime of shapes {[2],[5],[2,2],[2,2,2]} x w in {1,2,4,8} x 2 hashes x callback {accept, reject, crash-before, crash-after} x aux {none, fresh, valid, corrupt} x {byte API, object API}, followed by every truncated length / over-long / bad parameter byte / out-of-range counter / wiped / all-0xff key"),
             rule: "the crossing (shape x w x hash x callback behaviour x aux kind x API) is enumerated by run index; each run visits every counter of the key's lifetime and every failing precondition; non-trivial = a fault fired and the callback automaton was evaluated afterwards; distinct = distinct (configuration, op kinds, fault set) hash; the lifecycle part adds seeded swarm shapes",
         },
-        "C02" => CheckSpec { property: "C02", level: "exploration", parts: vec![p("wire", 1200, 10000), p("handover", 30, 300)], exhaustive_note: None, rule: "2-4 keys per run (two sharing the hash, two sharing n), 1-3 releases each at random/boundary counters; every envelope delivered intact through each entry point and then with seeded transport faults (bit flips raw and per field, field overwrite, truncate/extend, cross-key/level/counter/hash splices, message/key/hash swaps, level cut/grow, raw bytes, model-made RFC-exact signatures); non-trivial = a fault changed the delivered triple and the verdict oracle ran; distinct = (shapes, fault-kind sequence) hash" },
+        "C02" => CheckSpec { property: "C02", level: "exploration", parts: vec![p("wire", 3500, 25000), p("handover", 40, 400)], exhaustive_note: None, rule: "2-4 keys per run (two sharing the hash, two sharing n), 1-3 releases each at random/boundary counters; every envelope delivered intact through each entry point and then with seeded transport faults (bit flips raw and per field, field overwrite, truncate/extend, cross-key/level/counter/hash splices, message/key/hash swaps, level cut/grow, raw bytes, model-made RFC-exact signatures); non-trivial = a fault changed the delivered triple and the verdict oracle ran; distinct = (shapes, fault-kind sequence) hash" },
         "C06" => CheckSpec {
             property: "C06",
             level: "fault_enumeration",
@@ -29,12 +29,12 @@ pub fn spec(prop: &str, quick: bool) -> Option<CheckSpec> {
             exhaustive_note: Some("for each base triple (6 hashes x w x L in {1,2,3,8} x height pattern): every prefix length of the signature and of the public key, extensions by 1..64 bytes, the u32 boundary set on every header/type/leaf field of every level, every value of each byte of those fields for L <= 3, every value of each byte of the public-key header fields, PRNG strings of every length 0..200"),
             rule: "enumerated short/extended deliveries and field values per base triple (run index = base triple), plus seeded structure-aware and raw mutations; every case through hbs_lms::verify, VerifyingKey+Signature::from_bytes, VerifyingKey+VerifierSignature::from_ref; non-trivial = the fault changed bytes and the outcome was classified; distinct = (shape, fault-kind sequence) hash",
         },
-        "C08" => CheckSpec { property: "C08", level: "exploration", parts: vec![p("keygen", 2500, 25000)], exhaustive_note: None, rule: "seeds (zero, all-ones, single-bit, PRNG) x parameter lists (1..8 levels, all w, heights up to 10 on top, up to 25 below) x 8 hash instantiations x aux {none, assorted sizes}; every fourth run is SHA-256/32 with heights >= 5 and is compared with the files the hash-sigs binary writes for the same seed; non-trivial = a build-limit or aux 'fault' fired or the binary was consulted (counted via fault_fired/probes); distinct = (shape, op kinds) hash" },
+        "C08" => CheckSpec { property: "C08", level: "exploration", parts: vec![p("keygen", 6000, 40000)], exhaustive_note: None, rule: "seeds (zero, all-ones, single-bit, PRNG) x parameter lists (1..8 levels, all w, heights up to 10 on top, up to 25 below) x 8 hash instantiations x aux {none, assorted sizes}; every fourth run is SHA-256/32 with heights >= 5 and is compared with the files the hash-sigs binary writes for the same seed; non-trivial = a build-limit or aux 'fault' fired or the binary was consulted (counted via fault_fired/probes); distinct = (shape, op kinds) hash" },
         "C09" => CheckSpec { property: "C09", level: "exploration", parts: vec![p("purity", 600, 6000)], exhaustive_note: None, rule: "3-6 keys per run with interleaved keygen/sign/load/lifetime ops; observed calls re-executed immediately, at the end of the run, through the other API, with aux, and (every 8th run) in a fresh child process; byte equality; non-trivial = at least one re-execution context fired; distinct = (shapes, op kinds) hash" },
         "C10" => CheckSpec {
             property: "C10",
             level: "fault_enumeration",
-            parts: vec![p("aux-enum", crate::gen2::aux_enum_space(quick), crate::gen2::aux_enum_space(false)), p("aux", 500, 5000)],
+            parts: vec![p("aux-enum", crate::gen2::aux_enum_space(quick), crate::gen2::aux_enum_space(false)), p("aux", 2500, 15000)],
             exhaustive_note: Some("on a buffer freshly filled by keygen: every single-bit flip, every truncation length 0..len, padding by 1..64 bytes, every value of each level-word byte — each followed by sign (and every fourth by keygen) with the faulted buffer, compared with the same call without aux"),
             rule: "enumerated storage faults on the aux cache file (chunks by run index) plus seeded sequences of keygen/sign/aux-fault ops over keys with equal shape and different seeds; non-trivial = the fault changed the buffer and the transparency/layout/meter oracles ran; distinct = (shape, op kinds, fault set) hash",
         },
